@@ -339,6 +339,42 @@ class Model:
                 return c2[0]
         raise AnalysisIncomplete(f"anchor function `{name}` is ambiguous: {c}")
 
+    def scope_fns(self, f, depth=1):
+        """f and the helper functions of the same file it calls directly (a long function split into private helpers keeps its
+        obligations): free functions or methods of the same impl, not the function itself, nothing that calls f back"""
+        out = [f]
+        seen = {f.name}
+        frontier = [f]
+        for _ in range(depth):
+            nxt = []
+            for g in frontier:
+                if g.body is None:
+                    continue
+                names = {callee_name(c) for c in walk(g.body) if c["k"] in ("Call", "MethodCall")}
+                for h in self.fns(f.file):
+                    if h.body is None or h.name in seen or h.name not in names or h.test:
+                        continue
+                    if h.impl not in (None, f.impl):
+                        continue
+                    if any(callee_name(c) == f.name for c in walk(h.body) if c["k"] in ("Call", "MethodCall")):
+                        continue
+                    seen.add(h.name)
+                    out.append(h)
+                    nxt.append(h)
+            frontier = nxt
+        return out
+
+    def arg_for_param(self, caller, helper, pname):
+        """the expression `caller` passes for parameter `pname` of `helper` (first call found), or None"""
+        ps = [p["pat"].get("name") for p in helper.params() if not p["self"]]
+        if pname not in ps:
+            return None
+        i = ps.index(pname)
+        for c in walk(caller.body):
+            if c["k"] in ("Call", "MethodCall") and callee_name(c) == helper.name and len(c["args"]) > i:
+                return c["args"][i]
+        return None
+
     def opt_fn(self, name, rel=None, impl=None):
         try:
             return self.fn(name, rel, impl)
@@ -541,3 +577,29 @@ def bool_atoms(e):
     if k == "Binary" and e["op"] in ("&&", "||"):
         return bool_atoms(e["lhs"] if "lhs" in e else e["left"]) + bool_atoms(e["rhs"] if "rhs" in e else e["right"])
     return [e]
+
+
+def pushes_error(model, facts, rel, node):
+    """the code in `node` reports an error diagnostic: it pushes a Severity::Error diagnostic itself, calls push_error / push_ice, or
+    calls a helper (same file, or typer/util.rs) that is handed the diagnostics and does so"""
+    t = norm_ws(facts.text(rel, node["sp"]))
+    if ".push(" in t and "Severity::Error" in t:
+        return True
+    for c in walk(node):
+        if c["k"] not in ("Call", "MethodCall"):
+            continue
+        nm = callee_name(c)
+        if nm in ("push_error", "push_ice"):
+            return True
+        if not any("diagnostics" in idents(a) for a in c["args"]):
+            continue
+        for r2 in (rel, "crates/compiler/src/typer/util.rs"):
+            try:
+                hs = [h for h in model.fns(r2) if h.name == nm and h.body is not None]
+            except Exception:
+                hs = []
+            for h in hs:
+                ht = norm_ws(facts.text(r2, h.body["sp"]))
+                if ".push(" in ht and "Severity::Error" in ht:
+                    return True
+    return False
